@@ -263,6 +263,8 @@ class Run:
         outs = self.model.ask([c["cmd"] for c in cases])
         bad = []
         for c, m in zip(cases, outs):
+            if c.get("mcanon"):
+                m = c["mcanon"](m)
             self.count(c.get("kind", label), c.get("key", c["cmd"]), c.get("nontrivial", True))
             exp = c.get("oracle")
             if m.startswith("driver-error"):
